@@ -806,7 +806,19 @@ fn run_single_test(test: &TestInfo) -> TestResult {
             let stderr = String::from_utf8_lossy(&output.stderr);
 
             if output.status.success() {
-                TestResult::Passed(duration)
+                // `cargo test` also succeeds when it ran zero tests; only a reported `test <name> ... ok` proves that the
+                // selected function actually ran to completion.
+                if cargo_reports_test_ok(&stdout, &test.function_name) {
+                    TestResult::Passed(duration)
+                } else {
+                    TestResult::Failed(
+                        duration,
+                        format!(
+                            "Test was not executed: the harness did not run `{}` (tests taking fixture parameters are not supported yet)",
+                            test.function_name
+                        ),
+                    )
+                }
             } else {
                 let msg = if stderr.contains("assertion") {
                     extract_assertion_error(&stderr)
@@ -820,6 +832,19 @@ fn run_single_test(test: &TestInfo) -> TestResult {
         }
         Err(e) => TestResult::Failed(start.elapsed(), format!("Failed to run test: {}", e)),
     }
+}
+
+/// Whether libtest's output contains the `test <name> ... ok` line for the given test function.
+fn cargo_reports_test_ok(stdout: &str, function_name: &str) -> bool {
+    stdout.lines().any(|line| {
+        let mut words = line.split_whitespace();
+        words.next() == Some("test")
+            && words
+                .next()
+                .is_some_and(|path| path == function_name || path.ends_with(&format!("::{function_name}")))
+            && words.next() == Some("...")
+            && words.next() == Some("ok")
+    })
 }
 
 fn extract_assertion_error(stderr: &str) -> String {
